@@ -7,7 +7,7 @@ from .c11 import rule_eligible_only, rule_frequency_zero
 from .c12 import rule_pool_guard
 from .c13 import rule_buffer
 from .c14 import rule_frame_kind_dispatch, rule_casts, rule_permit_before_buffer
-from .c16 import rule_replica_caches
+from .c16 import rule_replica_caches, rule_selection, rule_channel
 from .c06 import rule_dispatch_and_errors
 
 RULES = [
@@ -26,6 +26,10 @@ RULES = [
     # "never buffers more than its configured limits": every frame the mux queues for a stream (DATA and OPEN/CLOSE)
     # holds a read_frame_count permit, DATA additionally read_buffer_size permits of its size
     ("C14.1", rule_permit_before_buffer),
+    # ... and the queue of consensus messages waiting for the replica is a plain VecDeque bounded ONLY by the selection
+    # function (one pending message per validator and kind, whatever else the message claims - seed S6C10) and the
+    # channel's keep / discard semantics
+    ("C16.1", rule_selection), ("C16.4", rule_channel),
     # "either processes it or rejects it": a rejected consensus message must not end the replica task (the node would shut down)
     ("C06.9", rule_dispatch_and_errors),
 ]
